@@ -49,6 +49,34 @@ func checkC04(p *Prog, r *Result, tier string) {
 		}}
 	}, nil)
 
+	// R7: the batch entry commits whatever it inserted, also when it stops half-way
+	r.Rule("C04.R7", "a batch that stops half-way still commits: every return of the batch entry that can follow an insertion into the live index is preceded by the schema commit (the n objects it reports as inserted are acknowledged writes: abandoning the handle must not lose them)", 1)
+	if many := p.FuncByName("DB.InsertOrUpdateMany"); many != nil {
+		exploreAll(p, c, jobsFor([]*ssa.Function{many}, []Valuation{{Cache: triNo, Async: triNo}, {Cache: triYes, Async: triNo}}), effs(EIdxWLive, ECallCommit, EDirty, ECfgW, EFsWSchema), r, func(j exploreJob) Listener {
+			return &effListener{p: p, r: r, root: j.root, val: j.val, onEvent: func(l *effListener, x *Explorer, st *State, ev *Event) {
+				// a commit call made after the index was touched (the schema acquisition may also write a schema file,
+				// before anything is inserted)
+				if ev.Kind == EvEffect && ev.Eff == EIdxWLive {
+					st.User &^= 16
+				}
+				if ev.Kind == EvEffect && ev.Eff == ECallCommit && st.may.Has(EIdxWLive) {
+					st.User |= 16
+				}
+			}, onReturn: func(l *effListener, x *Explorer, st *State, ret *ssa.Return, res []Fact) {
+				if !st.may.Has(EIdxWLive) {
+					return
+				}
+				if st.User&16 != 0 {
+					l.ok("C04.R7", FuncName(many), "commit on every return after an insertion", l.p.Pos(ret.Pos()))
+				} else {
+					l.bad("C04.R7", FuncName(many), "commit on every return after an insertion", "the batch entry can return (with an error) after objects were inserted into the live index and written, without committing the schema: the objects it reports as inserted are on disk but a new handle finds a schema that does not index them", l.p.Pos(ret.Pos()), x, st, ret)
+				}
+			}}
+		}, nil)
+	} else {
+		r.Report("C04.R7", "DB.InsertOrUpdateMany", "entry", Undecided, "batch entry not found", "", nil, false)
+	}
+
 	// R2
 	if cl := p.FuncByName("DB.Close"); cl != nil {
 		m2 := effs(ECancel, ECallFlushPend, ECallCommit)
